@@ -42,7 +42,9 @@ def glyph_name(codepoints):
     except TypeError:
         codepoints = [codepoints]
     name = "_".join((_name(c) for c in codepoints))
-    if len(name) > _MAX_NAME_LEN:
+    # leave room for the "g_" prefix added below
+    max_len = _MAX_NAME_LEN if name[0].isalpha() else _MAX_NAME_LEN - 2
+    if len(name) > max_len:
         import hashlib
         import base64
 
